@@ -41,39 +41,44 @@ def with_member_ft(ft):
 
 
 WITNESSES = [
-    dict(coq='w_S14', key=K_FT, theorem='C09_static_array_length_required_refuted',
-         finding='S14-static-array-length-not-required',
-         inst={'class': 'static-array', 'element-field-type': dict(UINT8)},
-         what='static array field type without `length` (documented as required) passes the final schema config/3/config'),
-    dict(coq='w_S4', key=K_FT, theorem='C09_dynamic_array_refuted',
-         finding='S4-dynamic-array-unvalidated',
-         inst={'class': 'dynamic-array', 'zz': 1},
-         what='dynamic array field type node is not validated by the schemas (duplicate key `dynamic-array-ft-class-prop` in schemas/config/3/field-type.yaml): unknown property / missing element-field-type pass'),
     dict(coq='w_S18', key=K_FT, theorem='C09_integer_property_is_integer_refuted',
-         finding='S18-integral-float-accepted-as-integer',
+         finding='S19-integral-float-accepted-as-integer',
          inst={'class': 'uint', 'size': 8.0},
          what='a YAML float with an integral value (size: 8.0) passes for an integer (Draft-7 "integer" of jsonschema 3.2.0)'),
     dict(coq='w_enum_null', key=K_FT, theorem='C09_enum_mappings_required_refuted',
          finding='NEW-enum-mappings-null-accepted',
          inst={'class': 'uenum', 'size': 8, 'mappings': None},
          what='enumeration field type with `mappings: null` passes the schemas although at least one mapping is documented as required'),
-    dict(coq='w_member', key=K_FT, theorem='C09_member_name_identifier_refuted',
-         finding='NEW-struct-member-name-pattern-not-enforced',
-         inst={'class': 'struct', 'members': [{'a-b': {'field-type': dict(UINT8)}}]}, embed='payload',
-         what='structure member whose name is not an identifier (`a-b`) passes (patternProperties without additionalProperties: false in struct-ft-members; the member value is then not validated either)'),
     dict(coq='w_S3', key=K_CFG, theorem='C09_total_size_ge_content_size_refuted',
          finding='S3-total-size-narrower-than-content-size',
          inst=cfg_of({}, 'd', {'$features': {'packet': {'total-size-field-type': {'class': 'uint', 'size': 8},
                                                          'content-size-field-type': {'class': 'uint', 'size': 16}}}}),
          what='8-bit total size field type with a 16-bit content size field type is accepted (dst-obj.adoc: total size field type must be at least as large)'),
-    dict(coq='w_trace_prop', key=K_CFG, theorem='C09_trace_unknown_property_refuted',
-         finding='NEW-trace-object-unknown-property-accepted',
-         inst=cfg_of({'zz': 1}, 'd', {}),
-         what='unknown property `zz` of the trace object is accepted (definitions/trace of config/3/config.yaml lacks additionalProperties: false)'),
     dict(coq='w_name_nl', key=K_CFG, theorem='C09_name_identifier_refuted',
          finding='NEW-identifier-trailing-newline-accepted',
          inst=cfg_of({}, 'd\n', {}),
          what='a data stream type named "d\\n" (identifier followed by a newline) is accepted: python `$` matches before a final newline'),
+]
+
+# witnesses of defects REPAIRED in /repo: the regenerated schemas (Examples of Props/C09.v), the real
+# schema stage and the real front end must now all refuse them; anything else is a regression
+REPAIRED = [
+    dict(coq='w_S14', key=K_FT, theorem='C09_static_array_without_length_rejected',
+         finding='S14-static-array-length-not-required',
+         inst={'class': 'static-array', 'element-field-type': dict(UINT8)},
+         what='static array field type without `length` (documented as required) passes the final schema config/3/config'),
+    dict(coq='w_S4', key=K_FT, theorem='C09_dynamic_array_unknown_property_rejected',
+         finding='S4-dynamic-array-unvalidated',
+         inst={'class': 'dynamic-array', 'zz': 1},
+         what='dynamic array field type node is not validated by the schemas (duplicate key `dynamic-array-ft-class-prop` in schemas/config/3/field-type.yaml): unknown property / missing element-field-type pass'),
+    dict(coq='w_member', key=K_FT, theorem='C09_member_name_not_identifier_rejected',
+         finding='NEW-struct-member-name-pattern-not-enforced',
+         inst={'class': 'struct', 'members': [{'a-b': {'field-type': dict(UINT8)}}]}, embed='payload',
+         what='structure member whose name is not an identifier (`a-b`) passes (patternProperties without additionalProperties: false in struct-ft-members; the member value is then not validated either)'),
+    dict(coq='w_trace_prop', key=K_CFG, theorem='C09_trace_unknown_property_rejected',
+         finding='NEW-trace-object-unknown-property-accepted',
+         inst=cfg_of({'zz': 1}, 'd', {}),
+         what='unknown property `zz` of the trace object is accepted (definitions/trace of config/3/config.yaml lacks additionalProperties: false)'),
 ]
 
 
@@ -115,16 +120,16 @@ def run(ctx):
     body = ['From Coq Require Import List String ZArith.', 'Import ListNotations.',
             'From BT.Front Require Import Json JsonSchema JsonWitness.', 'Open Scope string_scope.',
             'Definition same : list bool := [']
-    body.append(';\n'.join('json_eqb %s %s' % (coq_json(w['inst']), w['coq']) for w in WITNESSES))
+    body.append(';\n'.join('json_eqb %s %s' % (coq_json(w['inst']), w['coq']) for w in WITNESSES + REPAIRED))
     body.append('].')
     body.append('Eval vm_compute in same.')
     rc, out = run_cases_v('c09wit', '\n'.join(body) + '\n', ctx.scratch, timeout=300)
     m = re.search(r'=\s*\[(.*?)\]\s*:\s*list bool', out, re.S)
     same = [t.strip() == 'true' for t in m.group(1).split(';')] if rc == 0 and m else None
-    if same is None or len(same) != len(WITNESSES) or not all(same):
+    if same is None or len(same) != len(WITNESSES) + len(REPAIRED) or not all(same):
         ctx.corr_broken.append('witness terms of Front/JsonWitness.v differ from the documents replayed by the harness: %s %s' % (same, out[-300:]))
     rows = []
-    for w in WITNESSES:
+    for w in WITNESSES + REPAIRED:
         verdict = pv.verdict(3, w['key'], w['inst'])
         if w['key'] == K_CFG:
             cfg = w['inst']
@@ -136,6 +141,12 @@ def run(ctx):
         outcome, detail, path = load(ctx, w['coq'], cfg)
         rows.append({'witness': w['coq'], 'theorem': w['theorem'], 'real_schema_stage': {0: 'valid', 1: 'invalid', 3: 'exception'}[verdict],
                      'front_end': outcome, 'detail': detail})
+        if w in REPAIRED:
+            if verdict != 1 or outcome != 'config_error':
+                ctx.violation('regression of a repaired defect (%s): %s; real schema stage verdict %s, front end %s (%s)' % (
+                    w['finding'], w['what'], verdict, outcome, detail),
+                    {'witness': w['coq'], 'yaml': open(path).read(), 'front_end_outcome': outcome, 'detail': detail})
+            continue
         if verdict != 0:
             ctx.corr_broken.append('witness %s: the model accepts it, the real schema stage of /repo does not (verdict %d)' % (w['coq'], verdict))
             continue
